@@ -250,5 +250,5 @@ EXPLANATION = {'C11': (
     '(recursive descent for the same grammar, driving the real GeomSemantics).')}
 ASSUMPTIONS = {'C11': [
     'TatSu parser replaced by a stand-in for exactly the grammar of geom.ebnf (left-associative union / isect)',
-    'cellcard.split (regular expressions) is trusted; exercised only through the deck sweeps',
+    'cellcard.split (regular expressions): bounded contract only (geometry text handed over unchanged); also exercised by the deck sweeps',
 ]}
